@@ -6,7 +6,7 @@ import seedtest
 ROOT = os.path.dirname(os.path.dirname(os.path.abspath(__file__)))
 PLAN = {
  'D1': ('C02', ['C02', 'C03'], 'a position that already occurred on the line is left by a move that is then taken back (any legality probe from a repeated position)'),
- 'D2': ('C09', ['C09', 'C14'], 'any go with a depth limit (the depth limit is compared with the ply counter)'),
+ 'D2': ('C14', ['C14', 'C09'], 'any go with a depth limit (the depth limit is compared with the ply counter)'),
  'D3': ('C09', ['C09', 'C10'], 'the first iteration is cut short: tiny node / time limits, or stop right after go'),
  'D4': ('C10', ['C10'], 'stop arrives before the search thread stores true into the running flag at its entry'),
  'D5': ('C10', ['C10'], 'go arrives between the bestmove line and the exit of the search thread'),
